@@ -2,7 +2,10 @@ module verifharness
 
 go 1.23.0
 
-require github.com/mmcloughlin/avo v0.0.0
+require (
+	github.com/mmcloughlin/avo v0.0.0
+	golang.org/x/arch v0.15.0
+)
 
 require (
 	golang.org/x/mod v0.24.0 // indirect
